@@ -449,3 +449,113 @@ def r_user_exc_contained(ctx):
                     n += 1
                     ctx.info('%s.%s is documented to raise' % (cn, m.name), m.loc(), doc.strip().split('\n')[-1].strip())
     ctx.expect_min(1)
+
+
+@rule('R-commit-subscription', 'a callback waits for exactly the (index, term) its command was appended with: locally the '
+                               'arguments of log.add, remotely the log_idx / log_term the leader reports for that append')
+def r_commit_subscription(ctx):
+    P, R = ctx.P, ctx.R
+    f = R.queue_drain
+    ex = U.explorer(ctx, f)
+    res = U.full_run(ctx, f)
+    adds = [c for g, c, via in log_op_sites(ctx, 'add') if g is f]
+    ctx.require(adds and len(adds[0].args) == 3, 'queue drain append not found')
+    add = adds[0]
+    idx_t, term_t = ex.tb.term(add.args[1]), ex.tb.term(add.args[2])
+    # local subscription
+    n_sub = 0
+    for n in ex.cfg.nodes:
+        if n.kind != 'stmt':
+            continue
+        for c in [x for x in ast.walk(n.ast) if isinstance(x, ast.Call)]:
+            fn = c.func
+            if isinstance(fn, ast.Attribute) and fn.attr == 'append' and isinstance(fn.value, ast.Subscript) and P.self_attr(fn.value.value, f.self_name) == R.waitingCommit \
+                    and c.args and isinstance(c.args[0], ast.Tuple) and len(c.args[0].elts) == 2:
+                n_sub += 1
+                key = ex.tb.term(fn.value.slice)
+                trm = ex.tb.term(c.args[0].elts[0])
+                inst = 'leader-local subscription uses the appended (index, term)'
+                ok = all(oracle.entails(fs, ('and', ('eq', key, idx_t), ('eq', trm, term_t))) for fs in res.facts_at(n.id)) and bool(res.facts_at(n.id))
+                ctx.tick()
+                if ok:
+                    ctx.ok(inst, f.loc(c), 'waitingCommit[%s] <- (%s, cb) for log.add(.., %s, %s)' % (key.key, trm.key, idx_t.key, term_t.key))
+                else:
+                    ctx.violation('%s:subscription-not-appended-position' % f.qualname, f.loc(c),
+                                  'the callback is subscribed at (%s, %s) but the command was appended at (%s, %s)' % (key.key, trm.key, idx_t.key, term_t.key), instance=inst)
+    # response to a forwarding follower carries the appended position
+    for c, d, t, tgt in U.send_sites(ctx, f):
+        if t == 'apply_command_response' and d is not None and U.dict_get(d, 'error') is None:
+            n = U.node_containing(ex.cfg, c)
+            li, lt = U.dict_get(d, 'log_idx'), U.dict_get(d, 'log_term')
+            inst = 'reply to the forwarder reports the appended (index, term)'
+            ctx.tick()
+            if li is None or lt is None:
+                ctx.violation('%s:reply-without-position' % f.qualname, f.loc(c), 'the success reply to a forwarded command lacks log_idx / log_term', instance=inst)
+                continue
+            ok = all(oracle.entails(fs, ('and', ('eq', ex.tb.term(li), idx_t), ('eq', ex.tb.term(lt), term_t))) for fs in res.facts_at(n.id)) and bool(res.facts_at(n.id))
+            if ok:
+                ctx.ok(inst, f.loc(c), 'log_idx=%s, log_term=%s' % (unparse(li), unparse(lt)))
+            else:
+                ctx.violation('%s:reply-position-mismatch' % f.qualname, f.loc(c), 'the reply reports (%s, %s), the command was appended at (%s, %s)'
+                              % (unparse(li), unparse(lt), idx_t.key, term_t.key), instance=inst)
+    # follower side: subscription from the reply
+    h = R.handler
+    hex_, hres, entry = U.region_run(ctx, 'apply_command_response')
+    msg = R.handler_msg_param
+    want_i = hex_.tb.term(U.parse_expr("%s['log_idx']" % msg))
+    want_t = hex_.tb.term(U.parse_expr("%s['log_term']" % msg))
+    n_f = 0
+    for n in hex_.cfg.nodes:
+        if n.kind != 'stmt' or not hres.reached(n.id):
+            continue
+        for c in [x for x in ast.walk(n.ast) if isinstance(x, ast.Call)]:
+            fn = c.func
+            if isinstance(fn, ast.Attribute) and fn.attr == 'append' and isinstance(fn.value, ast.Subscript) and P.self_attr(fn.value.value, h.self_name) == R.waitingCommit \
+                    and c.args and isinstance(c.args[0], ast.Tuple) and len(c.args[0].elts) == 2:
+                n_f += 1
+                key = hex_.tb.term(fn.value.slice)
+                trm = hex_.tb.term(c.args[0].elts[0])
+                inst = 'forwarder subscribes at the (index, term) reported by the leader'
+                ok = all(oracle.entails(fs, ('and', ('eq', key, want_i), ('eq', trm, want_t))) for fs in hres.facts_at(n.id))
+                ctx.tick()
+                if ok:
+                    ctx.ok(inst, h.loc(c), "waitingCommit[message['log_idx']] <- (message['log_term'], cb)")
+                else:
+                    ctx.violation('%s:forwarder-subscription-term' % h.qualname, h.loc(c),
+                                  'the callback of a forwarded command is subscribed at (%s, %s), not at the (log_idx, log_term) the leader appended it with: '
+                                  'SUCCESS / DISCARDED is then decided against the wrong term' % (key.key, trm.key), instance=inst)
+    ctx.require(n_sub >= 1 and n_f >= 1, 'subscription sites not found')
+    ctx.expect_min(3)
+
+
+@rule('R-request-id-unique', 'request ids of forwarded commands are never reused: the counter is only ever incremented')
+def r_request_id_unique(ctx):
+    P, R = ctx.P, ctx.R
+    f = R.queue_drain
+    counter = None
+    for c, d, t, tgt in U.send_sites(ctx, f):
+        pass
+    for n in ast.walk(f.node):
+        if isinstance(n, ast.Assign) and isinstance(n.targets[0], ast.Subscript) and isinstance(n.targets[0].slice, ast.Constant) \
+                and n.targets[0].slice.value == 'request_id':
+            counter = P.self_attr(n.value, f.self_name)
+    if counter is None:
+        for c, d, t, tgt in U.send_sites(ctx, f):
+            if t == 'apply_command' and d is not None and U.dict_get(d, 'request_id') is not None:
+                counter = P.self_attr(U.dict_get(d, 'request_id'), f.self_name)
+    ctx.require(counter, 'request id source of forwarded commands not found')
+    n = 0
+    for g in P.methods_of(R.S):
+        for st, kind in U.assigns_to_attr(P, g, counter):
+            n += 1
+            inst = '%s: `%s`' % (g.qualname, unparse(st))
+            ctx.tick()
+            if g.name == '__init__' and kind == 'assign' and isinstance(st.value, ast.Constant):
+                ctx.ok(inst, g.loc(st), 'initialisation', nontrivial=False)
+            elif kind == 'aug' and isinstance(st.op, ast.Add) and isinstance(st.value, ast.Constant) and st.value.value >= 1:
+                ctx.ok(inst, g.loc(st), 'increment')
+            else:
+                ctx.violation('%s:request-id-counter-rewritten' % g.qualname, g.loc(st),
+                              'the request id counter is overwritten (`%s`): a late reply for an old request then captures the callback of a new one' % unparse(st), instance=inst)
+    # the table key is the counter value, and replies are matched by pop
+    ctx.expect_min(2)
